@@ -14,20 +14,38 @@ def load(name):
     return mod
 
 
+OUTPUTS = {"queries2coq": "QueryShapes.v", "status2coq": "StatusTables.v", "keys2coq": "KeysGen.v", "wiring2coq": "Wiring.v"}
+
+
+def stub(name, why):
+    """A translator that cannot translate the current source leaves a generated file that does not compile, so that exactly the
+    proof cones that import it break (and no stale tables are ever used); everything else still builds."""
+    out = os.path.join(os.path.dirname(T), "coq", "theories", "Gen", OUTPUTS[name])
+    os.makedirs(os.path.dirname(out), exist_ok=True)
+    msg = " ".join(str(why).split())[:300].replace('"', "'")
+    with open(out, "w") as f:
+        f.write("(* GENERATED STUB: translator/%s.py could not translate the current source of the repository. *)\n" % name)
+        f.write("Lemma translator_failed : False.\nProof. fail \"%s: %s\". Qed.\n" % (name, msg))
+
+
 def main():
     rc = 0
     for name in ("queries2coq", "status2coq", "keys2coq", "wiring2coq"):
         if not os.path.exists(os.path.join(T, name + ".py")):
             continue
+        why = ""
         try:
             r = load(name).main([])
         except SystemExit as e:
             r = e.code
         except Exception as e:  # a translator that crashes is a broken obligation, not a pass
             print("translator %s crashed: %r" % (name, e))
+            why = repr(e)
             r = 1
-        if r not in (0, None):
+        out = os.path.join(os.path.dirname(T), "coq", "theories", "Gen", OUTPUTS[name])
+        if r not in (0, None) or not os.path.exists(out):
             print("translator %s failed (exit %s)" % (name, r))
+            stub(name, why or "exit %s (see the check log)" % r)
             rc = 1
     return rc
 
